@@ -1,40 +1,44 @@
 """facts_C07.py -- what the flow-control code of grpclib/protocol.py DOES, as path/effect facts
 (coq/Gen/FactsC07.v), regenerated from the source on every run (`ast` only, fail-closed).
 
-The facts are stated by meaning, not by spelling.  Each function is first normalised by tools/pynorm.py
-(docstrings/annotations stripped, private helpers of the same class/module inlined -- sync ones and
-coroutines awaited at once --, early-exit form, single-use temporaries inlined) and then executed
-SYMBOLICALLY, one loop iteration deep: every control-flow path becomes the sequence of the effects the
-model Model/FlowSend.v depends on, with objects named by ROLE, never by attribute or variable name:
+The facts are stated by meaning, not by spelling.  Each function is executed SYMBOLICALLY (after
+tools/pynorm.strip_noise): every control-flow path becomes the sequence of the effects the model
+Model/FlowSend.v depends on, with objects named by ROLE, never by attribute or variable name.  Private
+helpers (methods `_x` of the same class, static/class methods, private module functions, sync or awaited at
+once, with loops and early returns inside, returning plain values, tuples or private NamedTuple records with
+properties) are executed in place with their arguments bound.  A loop is followed over its back edge until the
+window is read again, so that "the wait is re-checked" is visible whichever loop (an inner helper loop or the
+outer one) does the re-checking.
 
   await:<event>                 suspension point: `await <event>.wait()`
   set:<event> / clear:<event>   Event.set() / Event.clear()
       <event> = write_ready | window_updated(self) | window_updated(all)      every registered stream
               | window_updated(addressed)    the stream `streams.get(event.stream_id)`
   h2:window_read                <h2>.local_flow_control_window(...)            (any receiver: h2 API name)
+  chunk:min{max_frame,other,window}   immediately before h2:send_data: the payload handed to it was read with a
+                                size that is a min() over these (through temporaries, records, properties,
+                                nested min()); `stale_window` / `stale_max_frame` = the value was read from
+                                h2 before the last suspension point
   h2:send_data, h2:data_to_send, h2:<other h2 API call>
   transport:write(h2data)       <x>.write(<result of data_to_send()>)
-  chunk:min{max_frame,other,window}   a min() over the window just read, max_outbound_frame_size, ...
   window>0 / window<=0          the branch taken on the window just read (any spelling: `not w > 0`, `w <= 0`,
                                 `w < 1`, `0 >= w`, inverted if/else, De Morgan)
   sid==0 / sid!=0, addressed:present / addressed:absent, has:<SETTING> / lacks:<SETTING>,
-  closing / not-closing         branches on event.stream_id, on the registry lookup, on
+  closing / not-closing         branches on event.stream_id, on the registry lookup (also with `:=`), on
                                 `<SETTING> in event.changed_settings`, on is_closing()
   call:self.flush, call:connection.pause_writing, call:connection.resume_writing
-  ->loop | ->exit | ->raise     how the path ends (next loop iteration / function returns / raises)
+  ->loop                        back edge of a `while`; the path continues with the next iteration and is cut
+  ->recheck                     ... right after the next h2:window_read
+  ->exit | ->raise              the function returns / raises
 
 Branches on anything else (e.g. "was this the last chunk") fork the path without a token; a repeated test
-of the same unchanged expression does not fork twice.  Tokens about things C07 does not talk about
-(MAX_CONCURRENT_STREAMS, stream_close_waiter, statistics, BytesIO book-keeping) are dropped and the
-resulting paths de-duplicated and sorted, so renaming locals or private attributes, extracting or inlining
-helpers, if/else versus early return, temporaries, `remaining` versus `f_pos/f_last`, one loop over a
-computed list of streams versus two loops ... do not change the facts.  A new await, a dropped clear(), a
-send that is not written at once, a wake-up that became conditional or partial, a changed window test do.
-Anything the symbolic execution does not understand raises (fail-closed)."""
+of the same unchanged expression does not fork twice; a test of a known constant does not fork.  Tokens about
+things C07 does not talk about (MAX_CONCURRENT_STREAMS, stream_close_waiter, statistics, BytesIO
+book-keeping) are dropped and the resulting paths de-duplicated and sorted.  Anything the symbolic execution
+does not understand raises (fail-closed)."""
 import ast
-import copy
 
-from extract_facts import parse, zs, Unsupported as XUnsupported
+from extract_facts import parse, zs
 import pynorm
 
 TARGETS = [
@@ -52,10 +56,15 @@ H2_API = {'send_data', 'data_to_send', 'local_flow_control_window', 'reset_strea
           'send_headers', 'increment_flow_control_window', 'acknowledge_received_data', 'update_settings',
           'close_connection', 'ping'}
 C07_EVENTS = ('write_ready', 'window_updated')
+MAX_DEPTH = 6
+FUNC = (ast.FunctionDef, ast.AsyncFunctionDef)
 
 
 class Unsupported(Exception):
     pass
+
+
+OTHER = ('other',)
 
 
 class St:
@@ -63,322 +72,622 @@ class St:
 
     def __init__(self):
         self.tokens = []
-        self.env = {}          # local name -> role
-        self.ver = {}          # local name -> number of assignments (invalidates remembered branches)
+        self.frames = [{}]     # call stack of local environments: name -> role
+        self.ver = {}          # (depth, name) -> number of assignments (invalidates remembered branches)
         self.assumed = {}      # key of an uninterpreted test -> bool
-        self.status = None     # None (running) | 'loop' | 'exit' | 'raise' | 'break' | 'continue'
+        self.status = None     # None (running) | 'exit' | 'raise' | 'cut' | 'break' | 'continue' | 'return'
+        self.retval = OTHER
+        self.after_loop = False
+        self.ntemp = 0
+        self.epoch = 0         # number of suspension points passed: values read from h2 before the last one are stale
 
     def fork(self):
         s = St()
         s.tokens = list(self.tokens)
-        s.env = dict(self.env)
+        s.frames = [dict(f) for f in self.frames]
         s.ver = dict(self.ver)
         s.assumed = dict(self.assumed)
         s.status = self.status
+        s.retval = self.retval
+        s.after_loop = self.after_loop
+        s.ntemp = self.ntemp
+        s.epoch = self.epoch
         return s
+
+    @property
+    def env(self):
+        return self.frames[-1]
 
     def bind(self, name, role):
         self.env[name] = role
-        self.ver[name] = self.ver.get(name, 0) + 1
+        k = (len(self.frames), name)
+        self.ver[k] = self.ver.get(k, 0) + 1
+
+    def emit(self, tok):
+        if self.status == 'cut':
+            return
+        self.tokens.append(tok)
+        if tok.startswith('await:'):
+            self.epoch += 1
+        if tok == 'h2:window_read' and self.after_loop:
+            self.tokens.append('->recheck')
+            self.status = 'cut'
 
 
 def ev_name(role):
-    """printable name of an event role"""
     _, kind, owner = role
-    if kind == 'window_updated':
-        return 'window_updated(%s)' % owner
-    return kind
+    return 'window_updated(%s)' % owner if kind == 'window_updated' else kind
 
 
-# ------------------------------------------------------------------------------------------------
-# expressions: record effects in evaluation order, return the role of the value
+def is_private(name):
+    return name.startswith('_') and not (name.startswith('__') and name.endswith('__'))
 
-def eval_expr(e, st):
-    if e is None:
-        return ('other',)
-    if isinstance(e, ast.Await):
-        v = e.value
-        if isinstance(v, ast.Call) and isinstance(v.func, ast.Attribute) and v.func.attr == 'wait':
-            r = eval_expr(v.func.value, st)
-            if r[0] == 'ev':
-                st.tokens.append('await:' + ev_name(r))
-                return ('other',)
-        # any other suspension point: keep it visible
-        eval_expr(v, st)
-        st.tokens.append('await:?' + (ast.unparse(v.func) if isinstance(v, ast.Call) else ast.unparse(v)))
-        return ('other',)
-    if isinstance(e, ast.Call):
-        return eval_call(e, st)
-    if isinstance(e, ast.Attribute):
-        r = eval_expr(e.value, st)
-        a = e.attr
-        if a == 'window_updated':
-            owner = {'self': 'self', 'addressed': 'addressed', 'elem_all': 'all'}.get(r[0])
-            if owner is None:
-                raise Unsupported('window_updated of an unrecognised object: ' + ast.unparse(e))
-            return ('ev', 'window_updated', owner)
-        if a in ('write_ready', 'stream_close_waiter'):
-            return ('ev', a, None)
-        if a == 'streams' and r[0] == 'self':
-            return ('registry',)
-        if a == 'connection' and r[0] == 'self':
-            return ('connection',)
-        if a == 'stream_id':
-            return ('sid',)
-        if a == 'changed_settings':
-            return ('changed_settings',)
-        if a == 'max_outbound_frame_size':
-            return ('max_frame',)
-        if r == ('name', 'SettingCodes'):
-            return ('setting', a)
-        return ('attr', r, a)
-    if isinstance(e, ast.Name):
-        if e.id == 'self':
-            return ('self',)
-        return st.env.get(e.id, ('name', e.id))
-    if isinstance(e, ast.Constant):
-        return ('const', e.value)
-    if isinstance(e, (ast.Tuple, ast.List)):
-        return ('seq', tuple(eval_expr(x, st) for x in e.elts))
-    if isinstance(e, ast.UnaryOp) and isinstance(e.op, ast.Not):
-        return ('not', eval_expr(e.operand, st))
-    if isinstance(e, ast.Compare) and len(e.ops) == 1:
-        l = eval_expr(e.left, st)
-        r = eval_expr(e.comparators[0], st)
-        return ('cmp', type(e.ops[0]).__name__, l, r)
-    if isinstance(e, (ast.IfExp, ast.BoolOp)):
-        # short-circuit evaluation: only allowed here when no effect hides inside
-        probe = st.fork()
+
+def bound_name(role, st):
+    """how a value bounds a chunk size: the window / max frame size read since the last suspension point, a
+    stale one, or something else"""
+    if role[0] in ('window', 'max_frame'):
+        return role[0] if role[1] == st.epoch else 'stale_' + role[0]
+    return 'other'
+
+
+class Exec:
+    def __init__(self, tree, cls, raw=None):
+        self.tree = tree
+        self.cls = cls
+        self.classes = {n.name: n for n in tree.body if isinstance(n, ast.ClassDef)}
+        # record fields are annotations, which strip_noise removes: read them off the unstripped tree
+        self.raw_classes = {n.name: n for n in (raw or tree).body if isinstance(n, ast.ClassDef)}
+        self.module_funcs = {n.name: n for n in tree.body if isinstance(n, FUNC)}
+        self.depth = 0
+
+    # ---- helper resolution ----------------------------------------------------------------------
+    def method(self, clsname, name):
+        c = self.classes.get(clsname)
+        if c is None:
+            return None
+        for n in c.body:
+            if isinstance(n, FUNC) and n.name == name:
+                return n
+        return None
+
+    def resolve_helper(self, call, st):
+        """(function node, bound-to-self?) when `call` is a call of a private helper of this class / module"""
+        f = call.func
+        if isinstance(f, ast.Attribute) and is_private(f.attr) and isinstance(f.value, ast.Name):
+            base = f.value.id
+            if base in ('self', 'cls') or base == self.cls:
+                fn = self.method(self.cls, f.attr)
+                if fn is not None:
+                    static = any(isinstance(d, ast.Name) and d.id == 'staticmethod' for d in fn.decorator_list)
+                    return fn, not static
+        if isinstance(f, ast.Name) and is_private(f.id) and f.id in self.module_funcs \
+                and f.id not in st.env:
+            return self.module_funcs[f.id], False
+        return None
+
+    def record_class(self, name):
+        """annotated fields of a module-level class used as a record (NamedTuple / dataclass)"""
+        c = self.raw_classes.get(name)
+        if c is None:
+            return None
+        fields = [n.target.id for n in c.body if isinstance(n, ast.AnnAssign) and isinstance(n.target, ast.Name)]
+        if not fields or any(isinstance(n, FUNC) and n.name == '__init__' for n in c.body):
+            return None
+        return fields
+
+    def property_of(self, clsname, attr):
+        fn = self.method(clsname, attr)
+        if fn is not None and any(isinstance(d, ast.Name) and d.id == 'property' for d in fn.decorator_list):
+            return fn
+        return None
+
+    # ---- expressions: record effects in evaluation order, return the role of the value --------------
+    def eval_expr(self, e, st):
+        if e is None:
+            return OTHER
+        if isinstance(e, ast.Await):
+            v = e.value
+            if isinstance(v, ast.Call) and isinstance(v.func, ast.Attribute) and v.func.attr == 'wait':
+                r = self.eval_expr(v.func.value, st)
+                if r[0] == 'ev':
+                    st.emit('await:' + ev_name(r))
+                    return OTHER
+            if isinstance(v, ast.Call) and self.resolve_helper(v, st):
+                return self.inline_expr_helper(v, st)
+            self.eval_expr(v, st)
+            st.emit('await:?' + (ast.unparse(v.func) if isinstance(v, ast.Call) else ast.unparse(v)))
+            return OTHER
+        if isinstance(e, ast.Call):
+            return self.eval_call(e, st)
+        if isinstance(e, ast.NamedExpr):
+            r = self.eval_expr(e.value, st)
+            self.assign(e.target, r, st)
+            return r
+        if isinstance(e, ast.Attribute):
+            r = self.eval_expr(e.value, st)
+            a = e.attr
+            if r[0] == 'record':
+                fields = dict(r[2])
+                if a in fields:
+                    return fields[a]
+                prop = self.property_of(r[1], a)
+                if prop is not None:
+                    return self.inline_function(prop, [r], {}, st, expr_only=True)
+                raise Unsupported('unknown attribute of a record: ' + ast.unparse(e))
+            if a == 'window_updated':
+                owner = {'self': 'self', 'addressed': 'addressed', 'elem_all': 'all'}.get(r[0])
+                if owner is None:
+                    raise Unsupported('window_updated of an unrecognised object: ' + ast.unparse(e))
+                return ('ev', 'window_updated', owner)
+            if a in ('write_ready', 'stream_close_waiter'):
+                return ('ev', a, None)
+            if a == 'streams' and r[0] == 'self':
+                return ('registry',)
+            if a == 'connection' and r[0] == 'self':
+                return ('connection',)
+            if a == 'stream_id':
+                return ('sid',)
+            if a == 'changed_settings':
+                return ('changed_settings',)
+            if a == 'max_outbound_frame_size':
+                return ('max_frame', st.epoch)
+            if r == ('name', 'SettingCodes'):
+                return ('setting', a)
+            return ('attr', r, a)
+        if isinstance(e, ast.Name):
+            if e.id == 'self':
+                return st.env.get('self', ('self',))
+            return st.env.get(e.id, ('name', e.id))
+        if isinstance(e, ast.Constant):
+            return ('const', e.value)
+        if isinstance(e, (ast.Tuple, ast.List)):
+            return ('seq', tuple(self.eval_expr(x, st) for x in e.elts))
+        if isinstance(e, ast.UnaryOp) and isinstance(e.op, ast.Not):
+            return ('not', self.eval_expr(e.operand, st))
+        if isinstance(e, ast.Compare) and len(e.ops) == 1:
+            l = self.eval_expr(e.left, st)
+            r = self.eval_expr(e.comparators[0], st)
+            return ('cmp', type(e.ops[0]).__name__, l, r)
+        if isinstance(e, (ast.IfExp, ast.BoolOp)):
+            # short-circuit evaluation: only allowed here when no effect hides inside
+            probe = st.fork()
+            for ch in ast.iter_child_nodes(e):
+                if isinstance(ch, ast.expr):
+                    self.eval_expr(ch, probe)
+            if probe.tokens != st.tokens:
+                raise Unsupported('effect inside a conditional expression: ' + ast.unparse(e))
+            return OTHER
+        if isinstance(e, ast.JoinedStr):
+            for v in e.values:
+                if isinstance(v, ast.FormattedValue):
+                    self.eval_expr(v.value, st)
+            return OTHER
+        if isinstance(e, (ast.Lambda, ast.ListComp, ast.SetComp, ast.DictComp, ast.GeneratorExp, ast.Yield,
+                          ast.YieldFrom, ast.Starred)):
+            probe = st.fork()
+            for n in ast.walk(e):
+                if isinstance(n, (ast.Await, ast.Call)) and n is not e:
+                    # only harmless when nothing of interest can happen inside
+                    if isinstance(n, ast.Await):
+                        raise Unsupported('await inside ' + type(e).__name__)
+                    self.eval_expr(n, probe)
+            if probe.tokens != st.tokens:
+                raise Unsupported('effect inside ' + type(e).__name__)
+            return OTHER
         for ch in ast.iter_child_nodes(e):
             if isinstance(ch, ast.expr):
-                eval_expr(ch, probe)
-        if probe.tokens != st.tokens:
-            raise Unsupported('effect inside a conditional expression: ' + ast.unparse(e))
-        return ('other',)
-    if isinstance(e, (ast.Lambda, ast.ListComp, ast.SetComp, ast.DictComp, ast.GeneratorExp, ast.Yield,
-                      ast.YieldFrom, ast.NamedExpr, ast.Starred)):
-        raise Unsupported('expression kind ' + type(e).__name__)
-    for ch in ast.iter_child_nodes(e):
-        if isinstance(ch, ast.expr):
-            eval_expr(ch, st)
-    return ('other',)
+                self.eval_expr(ch, st)
+        return OTHER
 
+    def eval_call(self, e, st):
+        f = e.func
+        if self.resolve_helper(e, st):
+            return self.inline_expr_helper(e, st)
+        if isinstance(f, ast.Attribute):
+            recv = self.eval_expr(f.value, st)
+            args = [self.eval_expr(a, st) for a in e.args] + [self.eval_expr(k.value, st) for k in e.keywords]
+            m = f.attr
+            if recv[0] == 'ev':
+                if m in ('set', 'clear'):
+                    st.emit('%s:%s' % (m, ev_name(recv)))
+                    return OTHER
+                if m == 'wait':
+                    raise Unsupported('Event.wait() that is not awaited at once: ' + ast.unparse(e))
+                return OTHER                     # is_set()
+            if m == 'local_flow_control_window':
+                st.emit('h2:window_read')
+                return ('window', st.epoch)
+            if m in H2_API and recv[0] != 'self':
+                if m == 'send_data':
+                    for a in args:
+                        if a[0] == 'chunk':
+                            st.emit('chunk:min{%s}' % ','.join(sorted({bound_name(x, st) for x in a[1]}))
+                                    if a[1] else 'chunk:unbounded')
+                st.emit('h2:' + m)
+                return ('h2data',) if m == 'data_to_send' else OTHER
+            if m == 'write':
+                st.emit('transport:write(%s)' % ('h2data' if ('h2data',) in args else 'other'))
+                return OTHER
+            if m == 'read' and len(args) <= 1:
+                # bytes read from a buffer: remember what bounds their number
+                a = args[0] if args else OTHER
+                return ('chunk', a[1] if a[0] == 'minof' else
+                        frozenset([a]) if args else frozenset())
+            if recv[0] == 'registry':
+                if m == 'values' and not args:
+                    return ('registry_all',)
+                if m == 'items' and not args:
+                    return ('registry_items',)
+                if m == 'get' and args and args[0] == ('sid',) and (len(args) == 1 or args[1] == ('const', None)):
+                    return ('addressed',)
+                raise Unsupported('use of the stream registry: ' + ast.unparse(e))
+            if m == 'is_closing':
+                return ('closing',)
+            if m in ('pause_writing', 'resume_writing', 'flush') and recv[0] in ('self', 'connection'):
+                st.emit('call:%s.%s' % (recv[0], m))
+                return OTHER
+            return OTHER
+        if isinstance(f, ast.Name):
+            args = [self.eval_expr(a, st) for a in e.args]
+            kws = {k.arg: self.eval_expr(k.value, st) for k in e.keywords}
+            allargs = args + list(kws.values())
+            if f.id == 'min' and f.id not in st.env:
+                parts = set()
+                for a in allargs:
+                    if a[0] == 'minof':
+                        parts |= set(a[1])
+                    else:
+                        parts.add(a if a[0] in ('window', 'max_frame') else OTHER)
+                return ('minof', frozenset(parts))
+            if f.id in ('list', 'tuple', 'iter') and len(allargs) == 1:
+                return allargs[0]
+            fields = self.record_class(f.id) if f.id not in st.env else None
+            if fields is not None:
+                if len(args) > len(fields) or any(k not in fields for k in kws if k):
+                    raise Unsupported('construction of record ' + f.id)
+                vals = dict(zip(fields, args))
+                vals.update(kws)
+                return ('record', f.id, tuple((k, vals.get(k, OTHER)) for k in fields))
+            return OTHER
+        self.eval_expr(f, st)
+        for a in e.args:
+            self.eval_expr(a, st)
+        return OTHER
 
-def eval_call(e, st):
-    f = e.func
-    if isinstance(f, ast.Attribute):
-        recv = eval_expr(f.value, st)
-        args = [eval_expr(a, st) for a in e.args] + [eval_expr(k.value, st) for k in e.keywords]
-        m = f.attr
-        if recv[0] == 'ev':
-            if m in ('set', 'clear'):
-                st.tokens.append('%s:%s' % (m, ev_name(recv)))
-                return ('other',)
-            if m == 'wait':
-                raise Unsupported('Event.wait() that is not awaited at once: ' + ast.unparse(e))
-            return ('other',)                    # is_set()
-        if m == 'local_flow_control_window':
-            st.tokens.append('h2:window_read')
-            return ('window',)
-        if m in H2_API and recv[0] != 'self':
-            st.tokens.append('h2:' + m)
-            return ('h2data',) if m == 'data_to_send' else ('other',)
-        if m == 'write':
-            st.tokens.append('transport:write(%s)' % ('h2data' if ('h2data',) in args else 'other'))
-            return ('other',)
-        if recv[0] == 'registry':
-            if m == 'values' and not args:
-                return ('registry_all',)
-            if m == 'items' and not args:
-                return ('registry_items',)
-            if m == 'get' and args and args[0] == ('sid',) and (len(args) == 1 or args[1] == ('const', None)):
-                return ('addressed',)
-            raise Unsupported('use of the stream registry: ' + ast.unparse(e))
-        if m == 'is_closing':
-            return ('closing',)
-        if m in ('pause_writing', 'resume_writing', 'flush') and recv[0] in ('self', 'connection'):
-            st.tokens.append('call:%s.%s' % (recv[0], m))
-            return ('other',)
-        return ('other',)
-    if isinstance(f, ast.Name):
-        args = [eval_expr(a, st) for a in e.args] + [eval_expr(k.value, st) for k in e.keywords]
-        if f.id in ('min', 'max') and ('window',) in args:
-            st.tokens.append('chunk:%s{%s}' % (f.id, ','.join(sorted(
-                {('window',): 'window', ('max_frame',): 'max_frame'}.get(a, 'other') for a in args))))
-            return ('other',)
-        if f.id in ('list', 'tuple', 'iter', 'reversed') and len(args) == 1 and f.id != 'reversed':
-            return args[0]
-        return ('other',)
-    eval_expr(f, st)
-    for a in e.args:
-        eval_expr(a, st)
-    return ('other',)
-
-
-# ------------------------------------------------------------------------------------------------
-# branches
-
-def int_bound(op, c, window_left):
-    """window <op> c (or c <op> window) over the integers as ('>=', k) / ('<=', k)"""
-    if not window_left:
-        op = {'Gt': 'Lt', 'GtE': 'LtE', 'Lt': 'Gt', 'LtE': 'GtE'}.get(op, op)
-    return {'Gt': ('>=', c + 1), 'GtE': ('>=', c), 'Lt': ('<=', c - 1), 'LtE': ('<=', c)}.get(op)
-
-
-def classify(role):
-    """(token if true, token if false) of a test with the given role, or None (uninterpreted)"""
-    if role[0] == 'not':
-        c = classify(role[1])
-        return None if c is None else (c[1], c[0])
-    if role[0] == 'cmp':
-        _, op, l, r = role
-        for a, b, left in ((l, r, True), (r, l, False)):
-            if a == ('window',) and b[0] == 'const' and isinstance(b[1], int) and not isinstance(b[1], bool):
-                bd = int_bound(op, b[1], left)
-                if bd == ('>=', 1):
-                    return ('window>0', 'window<=0')
-                if bd == ('<=', 0):
-                    return ('window<=0', 'window>0')
-                raise Unsupported('the window is compared with something other than zero')
-            if a == ('sid',) and b == ('const', 0) and op in ('Eq', 'NotEq'):
-                return ('sid==0', 'sid!=0') if op == 'Eq' else ('sid!=0', 'sid==0')
-            if a == ('addressed',) and b == ('const', None) and op in ('Is', 'IsNot', 'Eq', 'NotEq'):
-                return ('addressed:absent', 'addressed:present') if op in ('Is', 'Eq') else \
-                    ('addressed:present', 'addressed:absent')
-        if l[0] == 'setting' and r == ('changed_settings',) and op in ('In', 'NotIn'):
-            t = ('has:' + l[1], 'lacks:' + l[1])
-            return t if op == 'In' else (t[1], t[0])
-        if ('window',) in (l, r):
-            raise Unsupported('unrecognised test of the window')
-        return None
-    if role == ('addressed',):
-        return ('addressed:present', 'addressed:absent')
-    if role == ('closing',):
-        return ('closing', 'not-closing')
-    if role == ('window',):
-        raise Unsupported('truthiness test of the window')
-    return None
-
-
-def names_in(e):
-    return sorted({n.id for n in ast.walk(e) if isinstance(n, ast.Name)})
-
-
-def branch(test, st):
-    """[(state, truth)] -- forks on the test"""
-    if isinstance(test, ast.UnaryOp) and isinstance(test.op, ast.Not):
-        return [(s, not b) for s, b in branch(test.operand, st)]
-    if isinstance(test, ast.BoolOp):
-        is_and = isinstance(test.op, ast.And)
-        live, done = [st], []
-        for v in test.values:
-            nxt = []
-            for s in live:
-                for s2, b in branch(v, s):
-                    (nxt if b == is_and else done).append((s2, b))
-            live = [s for s, _ in nxt]
-        return done + [(s, is_and) for s in live]
-    if isinstance(test, ast.Constant):
-        return [(st, bool(test.value))]
-    role = eval_expr(test, st)
-    c = classify(role)
-    if c is not None:
-        # a classified test repeated on the same path must agree with itself
-        for tok, other, val in ((c[0], c[1], True), (c[1], c[0], False)):
-            if tok in st.tokens and other not in st.tokens and tok.split(':')[0] not in ('window>0', 'window<=0'):
-                return [(st, val)]
-        t, f = st, st.fork()
-        t.tokens.append(c[0])
-        f.tokens.append(c[1])
-        return [(t, True), (f, False)]
-    key = ast.dump(test) + repr([(n, st.ver.get(n, 0)) for n in names_in(test)])
-    if key in st.assumed:
-        return [(st, st.assumed[key])]
-    t, f = st, st.fork()
-    t.assumed[key] = True
-    f.assumed[key] = False
-    return [(t, True), (f, False)]
-
-
-# ------------------------------------------------------------------------------------------------
-# statements
-
-def run_block(stmts, states):
-    for s in stmts:
-        nxt = []
-        for st in states:
-            if st.status is not None:
-                nxt.append(st)
+    # ---- helpers ----------------------------------------------------------------------------------
+    def bind_args(self, fn, argroles, kwroles, bound_self, st):
+        params = [a.arg for a in fn.args.posonlyargs + fn.args.args]
+        env = {}
+        pos = list(argroles)
+        if bound_self:
+            pos = [st.env.get('self', ('self',))] + pos
+        if fn.args.vararg or fn.args.kwarg or len(pos) > len(params):
+            raise Unsupported('argument shape of helper ' + fn.name)
+        defaults = fn.args.defaults
+        for i, p in enumerate(params):
+            if i < len(pos):
+                env[p] = pos[i]
+            elif p in kwroles:
+                env[p] = kwroles[p]
             else:
-                nxt += run_stmt(s, st)
-        states = nxt
-    return states
+                d = i - (len(params) - len(defaults))
+                if d < 0:
+                    raise Unsupported('missing argument of helper ' + fn.name)
+                env[p] = self.eval_expr(defaults[d], St())
+        for a, d in zip(fn.args.kwonlyargs, fn.args.kw_defaults):
+            env[a.arg] = kwroles[a.arg] if a.arg in kwroles else (self.eval_expr(d, St()) if d is not None else OTHER)
+        if bound_self and params and params[0] != 'self':
+            env['self'] = env[params[0]]
+        return env
 
-
-def assign(target, role, st):
-    if isinstance(target, ast.Name):
-        st.bind(target.id, role)
-    elif isinstance(target, (ast.Tuple, ast.List)):
-        for i, t in enumerate(target.elts):
-            assign(t, role[1][i] if role[0] == 'seq' and len(role[1]) == len(target.elts) else ('other',), st)
-    elif isinstance(target, (ast.Attribute, ast.Subscript)):
-        pass                       # object state that is not an Event (statistics counters, ...)
-    else:
-        raise Unsupported('assignment target ' + ast.unparse(target))
-
-
-def run_stmt(s, st):
-    if isinstance(s, ast.Expr):
-        eval_expr(s.value, st)
-        return [st]
-    if isinstance(s, (ast.Assign, ast.AnnAssign)):
-        value = s.value
-        targets = s.targets if isinstance(s, ast.Assign) else [s.target]
-        if isinstance(value, ast.IfExp):
+    def call_helper(self, fn, bound_self, call, st):
+        """run a helper on the path st: list of states (status None: st.retval is the value returned)"""
+        if self.depth >= MAX_DEPTH:
+            raise Unsupported('helper nesting too deep / recursive: ' + fn.name)
+        args = [self.eval_expr(a, st) for a in call.args]
+        kws = {k.arg: self.eval_expr(k.value, st) for k in call.keywords}
+        if any(k is None for k in kws):
+            raise Unsupported('**kwargs in a helper call')
+        env = self.bind_args(fn, args, kws, bound_self, st)
+        st.frames.append(env)
+        self.depth += 1
+        try:
             out = []
-            for s2, b in branch(value.test, st):
-                role = eval_expr(value.body if b else value.orelse, s2)
-                for t in targets:
-                    assign(t, role, s2)
-                out.append(s2)
+            for s in self.run_block(fn.body, [st]):
+                if s.status in ('break', 'continue'):
+                    raise Unsupported('break/continue outside a loop in ' + fn.name)
+                if s.status in (None, 'return'):
+                    if s.status is None:
+                        s.retval = ('const', None)
+                    s.status = None
+                    s.frames.pop()
+                out.append(s)
             return out
-        role = eval_expr(value, st)
-        for t in targets:
-            assign(t, role, st)
-        return [st]
-    if isinstance(s, ast.AugAssign):
-        eval_expr(s.value, st)
-        assign(s.target, ('other',), st)
-        return [st]
-    if isinstance(s, ast.Assert):
-        eval_expr(s.test, st)
-        return [st]
-    if isinstance(s, ast.Pass):
-        return [st]
-    if isinstance(s, ast.If):
+        finally:
+            self.depth -= 1
+
+    def inline_function(self, fn, args, kws, st, expr_only=False):
+        """a helper in expression position: must be a single straight path"""
+        params = [a.arg for a in fn.args.args]
+        env = dict(zip(params, args))
+        st.frames.append(env)
+        self.depth += 1
+        try:
+            if self.depth > MAX_DEPTH:
+                raise Unsupported('helper nesting too deep')
+            body = [s for s in fn.body]
+            res = self.run_block(body, [st])
+            if len(res) != 1 or res[0] is not st or st.status not in ('return', None):
+                raise Unsupported('helper %s used inside an expression has several paths' % fn.name)
+            r = st.retval if st.status == 'return' else ('const', None)
+            st.status = None
+            st.frames.pop()
+            return r
+        finally:
+            self.depth -= 1
+
+    def inline_expr_helper(self, call, st):
+        fn, bound = self.resolve_helper(call, st)
+        res = self.call_helper(fn, bound, call, st)
+        if len(res) != 1 or res[0] is not st or st.status is not None:
+            raise Unsupported('helper %s with several paths in a position that could not be hoisted' % fn.name)
+        return st.retval
+
+    # ---- hoisting helper calls out of expressions ------------------------------------------------------
+    def hoist(self, expr, st, out):
+        """replace helper calls inside expr (outside short-circuit contexts) by fresh names; out collects
+        (name, call node) in evaluation order"""
+        ex = self
+
+        class H(ast.NodeTransformer):
+            def visit_IfExp(self, n):
+                n.test = self.visit(n.test)
+                return n
+
+            def visit_BoolOp(self, n):
+                n.values[0] = self.visit(n.values[0])
+                return n
+
+            def visit_Lambda(self, n):
+                return n
+
+            def generic_comp(self, n):
+                return n
+            visit_ListComp = visit_SetComp = visit_DictComp = visit_GeneratorExp = generic_comp
+
+            def visit_Await(self, n):
+                if isinstance(n.value, ast.Call) and ex.resolve_helper(n.value, st):
+                    n.value.args = [self.visit(a) for a in n.value.args]
+                    for k in n.value.keywords:
+                        k.value = self.visit(k.value)
+                    return self.fresh(n.value)
+                return self.generic_visit(n)
+
+            def visit_Call(self, n):
+                if ex.resolve_helper(n, st):
+                    n.args = [self.visit(a) for a in n.args]
+                    for k in n.keywords:
+                        k.value = self.visit(k.value)
+                    return self.fresh(n)
+                return self.generic_visit(n)
+
+            def fresh(self, call):
+                st.ntemp += 1
+                name = '%helper' + str(st.ntemp)
+                out.append((name, call))
+                return ast.copy_location(ast.Name(id=name, ctx=ast.Load()), call)
+        import copy
+        return H().visit(copy.deepcopy(expr))
+
+    def with_hoisted(self, exprs, st, k):
+        """evaluate helper calls hoisted out of the expressions, forking; then continue with k(state, new exprs)"""
         out = []
-        for s2, b in branch(s.test, st):
-            out += run_block(s.body if b else s.orelse, [s2])
-        return out
-    if isinstance(s, ast.While):
-        if s.orelse or not (isinstance(s.test, ast.Constant) and s.test.value):
-            raise Unsupported('a loop other than `while True`')
-        out = []
-        for s2 in run_block(s.body, [st]):
-            if s2.status in (None, 'continue'):
-                s2.status = 'loop'
-            elif s2.status == 'break':
-                s2.status = None
-            out.append(s2)
-        return out
-    if isinstance(s, ast.For):
+        new = [None if e is None else self.hoist(e, st, out) for e in exprs]
+        states = [st]
+        for name, call in out:
+            nxt = []
+            for s in states:
+                if s.status is not None:
+                    nxt.append(s)
+                    continue
+                fn, bound = self.resolve_helper(call, s)
+                for s2 in self.call_helper(fn, bound, call, s):
+                    if s2.status is None:
+                        s2.bind(name, s2.retval)
+                    nxt.append(s2)
+            states = nxt
+        res = []
+        for s in states:
+            res += [s] if s.status is not None else k(s, new)
+        return res
+
+    # ---- branches ------------------------------------------------------------------------------------
+    @staticmethod
+    def int_bound(op, c, window_left):
+        if not window_left:
+            op = {'Gt': 'Lt', 'GtE': 'LtE', 'Lt': 'Gt', 'LtE': 'GtE'}.get(op, op)
+        return {'Gt': ('>=', c + 1), 'GtE': ('>=', c), 'Lt': ('<=', c - 1), 'LtE': ('<=', c)}.get(op)
+
+    def classify(self, role):
+        """(token if true, token if false), a bool (statically known), or None (uninterpreted)"""
+        if role[0] == 'not':
+            c = self.classify(role[1])
+            if isinstance(c, bool):
+                return not c
+            return None if c is None else (c[1], c[0])
+        if role[0] == 'const':
+            return bool(role[1])
+        if role[0] == 'cmp':
+            _, op, l, r = role
+            for a, b, left in ((l, r, True), (r, l, False)):
+                if a[0] == 'window' and b[0] == 'const' and isinstance(b[1], int) and not isinstance(b[1], bool):
+                    bd = self.int_bound(op, b[1], left)
+                    if bd == ('>=', 1):
+                        return ('window>0', 'window<=0')
+                    if bd == ('<=', 0):
+                        return ('window<=0', 'window>0')
+                    raise Unsupported('the window is compared with something other than zero')
+                if a == ('sid',) and b == ('const', 0) and op in ('Eq', 'NotEq'):
+                    return ('sid==0', 'sid!=0') if op == 'Eq' else ('sid!=0', 'sid==0')
+                if a == ('addressed',) and b == ('const', None) and op in ('Is', 'IsNot', 'Eq', 'NotEq'):
+                    return ('addressed:absent', 'addressed:present') if op in ('Is', 'Eq') else \
+                        ('addressed:present', 'addressed:absent')
+            if l[0] == 'setting' and r == ('changed_settings',) and op in ('In', 'NotIn'):
+                t = ('has:' + l[1], 'lacks:' + l[1])
+                return t if op == 'In' else (t[1], t[0])
+            if 'window' in (l[0], r[0]):
+                raise Unsupported('unrecognised test of the window')
+            if l[0] == 'const' and r[0] == 'const' and op in ('Eq', 'NotEq', 'Is', 'IsNot'):
+                eq = l[1] == r[1] if op in ('Eq', 'NotEq') else l[1] is r[1]
+                return eq if op in ('Eq', 'Is') else not eq
+            return None
+        if role == ('addressed',):
+            return ('addressed:present', 'addressed:absent')
+        if role == ('closing',):
+            return ('closing', 'not-closing')
+        if role[0] == 'window':
+            raise Unsupported('truthiness test of the window')
+        return None
+
+    def branch(self, test, st):
+        """[(state, truth)] -- forks on the test (helper calls already hoisted)"""
+        if isinstance(test, ast.UnaryOp) and isinstance(test.op, ast.Not):
+            return [(s, not b) for s, b in self.branch(test.operand, st)]
+        if isinstance(test, ast.BoolOp):
+            is_and = isinstance(test.op, ast.And)
+            live, done = [st], []
+            for v in test.values:
+                nxt = []
+                for s in live:
+                    for s2, b in self.branch(v, s):
+                        (nxt if b == is_and else done).append((s2, b))
+                live = [s for s, _ in nxt]
+            return done + [(s, is_and) for s in live]
+        role = self.eval_expr(test, st)
+        c = self.classify(role)
+        if isinstance(c, bool):
+            return [(st, c)]
+        if c is not None:
+            if not c[0].startswith('window'):
+                # a classified test repeated on the same path agrees with itself
+                for tok, other, val in ((c[0], c[1], True), (c[1], c[0], False)):
+                    if tok in st.tokens and other not in st.tokens:
+                        return [(st, val)]
+            t, f = st, st.fork()
+            t.emit(c[0])
+            f.emit(c[1])
+            return [(t, True), (f, False)]
+        d = len(st.frames)
+        names = sorted({n.id for n in ast.walk(test) if isinstance(n, ast.Name)})
+        key = '%d|%s|%r' % (d, ast.dump(test), [(n, st.ver.get((d, n), 0)) for n in names])
+        if key in st.assumed:
+            return [(st, st.assumed[key])]
+        t, f = st, st.fork()
+        t.assumed[key] = True
+        f.assumed[key] = False
+        return [(t, True), (f, False)]
+
+    # ---- statements ------------------------------------------------------------------------------------
+    def run_block(self, stmts, states):
+        for s in stmts:
+            nxt = []
+            for st in states:
+                if st.status is not None:
+                    nxt.append(st)
+                else:
+                    nxt += self.run_stmt(s, st)
+            states = nxt
+        return states
+
+    def assign(self, target, role, st):
+        if isinstance(target, ast.Name):
+            st.bind(target.id, role)
+        elif isinstance(target, (ast.Tuple, ast.List)):
+            parts = None
+            if role[0] == 'seq' and len(role[1]) == len(target.elts):
+                parts = list(role[1])
+            elif role[0] == 'record' and len(role[2]) == len(target.elts):
+                parts = [v for _, v in role[2]]
+            for i, t in enumerate(target.elts):
+                self.assign(t, parts[i] if parts else OTHER, st)
+        elif isinstance(target, (ast.Attribute, ast.Subscript)):
+            pass                       # object state that is not an Event (statistics counters, ...)
+        else:
+            raise Unsupported('assignment target ' + ast.unparse(target))
+
+    def run_stmt(self, s, st):
+        if isinstance(s, ast.Expr):
+            return self.with_hoisted([s.value], st, lambda s2, ex: (self.eval_expr(ex[0], s2), [s2])[1])
+        if isinstance(s, (ast.Assign, ast.AnnAssign)):
+            targets = s.targets if isinstance(s, ast.Assign) else [s.target]
+            if s.value is None:
+                return [st]
+
+            def k(s2, ex):
+                value = ex[0]
+                if isinstance(value, ast.IfExp):
+                    out = []
+                    for s3, b in self.branch(value.test, s2):
+                        role = self.eval_expr(value.body if b else value.orelse, s3)
+                        for t in targets:
+                            self.assign(t, role, s3)
+                        out.append(s3)
+                    return out
+                role = self.eval_expr(value, s2)
+                for t in targets:
+                    self.assign(t, role, s2)
+                return [s2]
+            return self.with_hoisted([s.value], st, k)
+        if isinstance(s, ast.AugAssign):
+            def k(s2, ex):
+                self.eval_expr(ex[0], s2)
+                self.assign(s.target, OTHER, s2)
+                return [s2]
+            return self.with_hoisted([s.value], st, k)
+        if isinstance(s, ast.Assert):
+            return self.with_hoisted([s.test], st, lambda s2, ex: (self.eval_expr(ex[0], s2), [s2])[1])
+        if isinstance(s, (ast.Pass, ast.Import, ast.ImportFrom, ast.Global, ast.Nonlocal)):
+            return [st]
+        if isinstance(s, ast.If):
+            def k(s2, ex):
+                out = []
+                for s3, b in self.branch(ex[0], s2):
+                    out += self.run_block(s.body if b else s.orelse, [s3])
+                return out
+            return self.with_hoisted([s.test], st, k)
+        if isinstance(s, ast.While):
+            return self.run_while(s, st)
+        if isinstance(s, ast.For):
+            return self.with_hoisted([s.iter], st, lambda s2, ex: self.run_for(s, ex[0], s2))
+        if isinstance(s, ast.Return):
+            def k(s2, ex):
+                s2.retval = self.eval_expr(ex[0], s2) if ex[0] is not None else ('const', None)
+                if s2.status is None:
+                    s2.status = 'return'
+                return [s2]
+            return self.with_hoisted([s.value], st, k)
+        if isinstance(s, ast.Continue):
+            st.status = 'continue'
+            return [st]
+        if isinstance(s, ast.Break):
+            st.status = 'break'
+            return [st]
+        if isinstance(s, ast.Raise):
+            self.eval_expr(s.exc, st)
+            if st.status is None:
+                st.status = 'raise'
+            return [st]
+        raise Unsupported('statement kind %s: %s' % (type(s).__name__, ast.unparse(s)[:80]))
+
+    def run_for(self, s, it_expr, st):
         if s.orelse:
             raise Unsupported('for ... else')
-        it = eval_expr(s.iter, st)
+        it = self.eval_expr(it_expr, st)
         if it == ('registry_all',):
             elems = [('elem_all',)]
         elif it == ('registry_items',):
-            elems = [('seq', (('other',), ('elem_all',)))]
+            elems = [('seq', (OTHER, ('elem_all',)))]
         elif it[0] == 'seq':
             elems = list(it[1])
         else:
@@ -387,29 +696,43 @@ def run_stmt(s, st):
         for el in elems:
             nxt = []
             for s2 in states:
-                assign(s.target, el, s2)
-                res = run_block(s.body, [s2])
+                self.assign(s.target, el, s2)
+                res = self.run_block(s.body, [s2])
                 if len(res) != 1 or res[0].status is not None:
                     # a wake-up loop whose body branches, breaks or returns is not "every element"
                     raise Unsupported('loop body is not straight-line: ' + ast.unparse(s.iter))
                 nxt += res
             states = nxt
         return states
-    if isinstance(s, ast.Return):
-        eval_expr(s.value, st)
-        st.status = 'exit'
-        return [st]
-    if isinstance(s, ast.Continue):
-        st.status = 'continue'
-        return [st]
-    if isinstance(s, ast.Break):
-        st.status = 'break'
-        return [st]
-    if isinstance(s, ast.Raise):
-        eval_expr(s.exc, st)
-        st.status = 'raise'
-        return [st]
-    raise Unsupported('statement kind %s: %s' % (type(s).__name__, ast.unparse(s)[:80]))
+
+    def run_while(self, s, st):
+        if s.orelse:
+            raise Unsupported('while ... else')
+        if any(isinstance(n, ast.Call) and self.resolve_helper(n, st) for n in ast.walk(s.test)):
+            raise Unsupported('helper call in a loop test')
+        results = []
+
+        def iterate(state, rounds):
+            if rounds > 3:
+                raise Unsupported('a loop that goes round without reading the window again')
+            for s2, b in self.branch(s.test, state):
+                if not b:
+                    results.append(s2)              # leaves the loop, goes on after it
+                    continue
+                if rounds:
+                    s2.emit('->loop')               # the back edge is taken
+                    s2.after_loop = True
+                for s3 in self.run_block(s.body, [s2]):
+                    if s3.status in (None, 'continue'):
+                        s3.status = None
+                        iterate(s3, rounds + 1)
+                    elif s3.status == 'break':
+                        s3.status = None
+                        results.append(s3)
+                    else:
+                        results.append(s3)
+        iterate(st, 0)
+        return results
 
 
 # ------------------------------------------------------------------------------------------------
@@ -424,30 +747,38 @@ def relevant(tok):
 
 
 def paths_of(tree, cls, name):
-    fn = pynorm.canonical_function(tree, cls, name)
+    raw = tree
+    tree = pynorm.strip_noise(tree)
+    ex = Exec(tree, cls, raw)
+    fn = ex.method(cls, name)
+    if fn is None:
+        raise Unsupported('%s.%s not found' % (cls, name))
     st = St()
-    for a in fn.args.args + fn.args.kwonlyargs:
+    for a in fn.args.posonlyargs + fn.args.args + fn.args.kwonlyargs:
         if a.arg != 'self':
             st.env[a.arg] = ('name', a.arg)
     out = set()
-    for s in run_block(fn.body, [st]):
+    for s in ex.run_block(fn.body, [st]):
         if s.status in ('break', 'continue'):
             raise Unsupported('break/continue outside a loop')
-        end = {'loop': '->loop', 'raise': '->raise'}.get(s.status, '->exit')
-        out.add(tuple([t for t in s.tokens if relevant(t)] + [end]))
+        toks = [t for t in s.tokens if relevant(t)]
+        if s.status != 'cut':
+            toks.append('->raise' if s.status == 'raise' else '->exit')
+        out.add(tuple(toks))
     return sorted(out)
 
 
 def generate(repo):
     tree = parse(repo, 'grpclib/protocol.py')
     lines = ['(* GENERATED by tools/facts_C07.py from grpclib/protocol.py -- do not edit.',
-             '   For each function: its control-flow paths (one loop iteration deep, private helpers inlined)',
-             '   as sequences of role-named effects; see the docstring of the translator. *)',
+             '   For each function: its control-flow paths (private helpers executed in place, loops followed',
+             '   over the back edge up to the next window read) as sequences of role-named effects; see the',
+             '   docstring of the translator. *)',
              'From Coq Require Import ZArith List.', 'Import ListNotations.', 'Open Scope Z_scope.', '']
     for name, cls, fn in TARGETS:
         try:
             paths = paths_of(tree, cls, fn)
-        except (pynorm.Unsupported, XUnsupported) as e:
+        except pynorm.Unsupported as e:
             raise Unsupported('%s.%s: %s' % (cls, fn, e))
         lines.append('Definition paths_%s : list (list (list Z)) :=' % name)
         body = []
